@@ -189,8 +189,10 @@ pub fn apply_faults(spec: &Spec) -> (World, Option<serde_json::Value>) {
 
 /// Materialise with an optional aliased key-table entry: the layout is signed *with* the
 /// aliased table (the owner wrote it that way), i.e. the wire tree is edited before signing.
-fn write_with_alias(w: &World, alias: &Option<serde_json::Value>, dir: &std::path::Path) -> MatInfo {
-    let mut info = write_world(w, dir);
+fn write_with_alias(base: &World, owners: &[KeySpec], w: &World, alias: &Option<serde_json::Value>, dir: &std::path::Path) -> MatInfo {
+    // history on disk: the directory first holds the fault-free world (verified once), then the
+    // faulty population replaces it at the same paths with the same modification times
+    let mut info = write_world_after(base, owners, w, dir);
     if let Some(a) = alias {
         let meta = in_toto::models::MetadataWrapper::Layout(w.layout.to_lib());
         let mut tree = serde_json::to_value(&meta).unwrap();
@@ -250,7 +252,7 @@ impl Property for C02 {
          (step,key) file in {absent, valid by that key, signed by the other key under this name, tampered, garbage}: 625 populations. \
          Oracle: Ok only if for every step |{k in step.pubkeys and layout.keys : a file step.<prefix(k)>.link has an intact signature by \
          k}| >= max(threshold,1) (ground truth by construction). Non-trivial: the necessary condition is violated for a step that has a \
-         present-but-non-counting file, and the fault-free control verifies Ok; distinct by (layout shape, faults)."
+         present-but-non-counting file, and the fault-free control verifies Ok; distinct by (layout shape, faults). History on disk: the link directory first holds the fault-free world, which is verified once; the faulty population is then written over it at the same paths with one fixed modification time (signature faults and digit edits keep the file size)."
             .into()
     }
     fn assumptions() -> Vec<String> {
@@ -321,7 +323,7 @@ impl Property for C02 {
         }
         let now = now_secs();
         let dir = env.fresh_dir("c02");
-        let info = write_with_alias(&w, &alias, &dir);
+        let info = write_with_alias(&spec.world, &spec.owners, &w, &alias, &dir);
         let j = judge(&w, &info, &spec.owners, now, true);
         let r = run_verify(&info, &own_ids(&spec.owners), &dir, None);
         let Some(r) = r else {
